@@ -9,6 +9,10 @@ ids = [json.loads(l)['id'] for l in (V / 'properties.jsonl').read_text().splitli
 TECH = 'contract-based deductive verification: own VC generator (pyvc) over the real .py/.pyx source, sidecar contracts, z3/cvc5'
 
 CLAIMED = {
+	'C12': dict(
+		text='Metadata and marker glue is verified over an assumed h5py store model: write_metadata (all 64 None/value shapes: h5py.Empty exactly for None, JSON text for extra), read_metadata (Empty/missing -> None, text otherwise, extra through json.loads), _init_attrs (marker = 1, k, prefix string, then the metadata), and load_signatures_hdf5 (SignaturesFileError exactly when the first 8 bytes are not the HDF5 magic or the root group lacks the marker). The dataset side (ids/values/bounds on both write paths, filters, reading back, indexing) is covered by a BOUNDED stand-in: real dump/load/compare on generated collections plus six kinds of foreign files.',
+		note='Trusted: h5py store model, json round trip, open/read. Bounded only: _init_datasets, create, HDF5Signatures.__init__ reading, filters.',
+		design='3/C12'),
 	'C05': dict(
 		text='_jaccarddist_parallel (real .pyx text, three type instantiations) is verified with a loop invariant "out[r] = D(query, r-th segment)" plus prange frame obligations (every iteration writes only its own cell, reads no written array, written and read views are different objects, assigned scalars are declared locals), which is what makes all interleavings and thread counts equal to the sequential result; jaccarddist_array is verified on both branches (concatenated fast path through the kernel contract incl. the bounds/dtype casts, and the per-item loop) for caller-supplied and allocated buffers incl. the ValueError cases; chunk_slices (generator; coverage of 0..n-1) and num_pairs. jaccarddist_matrix / jaccarddist_pairwise are covered by a BOUNDED stand-in only (bitwise comparison with a double loop over containers, chunk sizes, index selections with repeats, 1..16 threads, repeated runs).',
 		note='Trusted: C02 base (D as the kernel value), OpenMP/Cython prange semantics, NumPy views. Bounded only: matrix and pairwise.',
